@@ -376,7 +376,10 @@ class LookupTwice(Harness):
     _concrete = None
     PAIRS = [('km', 'ks'), ('ks', 'kis'), ('mm', 'kin'), ('kis', 'ks'), ('ms', 'mins'), ('kmin', 'kis'), ('kim', 'kis'), ('kiin', 'kins'), ('kis', 'kim')]
 
-    def __init__(self):
+    def __init__(self, tier='quick'):
+        if tier == 'thorough':
+            # every queried name first, every name with more than one reading second
+            self.PAIRS = [(a, b) for a in QUERIES + ['kim', 'kiin', 'kis'] for b in ('kis', 'kins', 'mins', 'kin', 'ks', 'kim', 'kmin') if a != b]
         self.describe = 'lookup(first); lookup(second) on one context compared with lookup(second) on a fresh identical context, for %d name pairs over the colliding universe' % len(self.PAIRS)
         self.bounds = ['histories of length 2', 'universe as in context.lookup']
         self.expect_classes = ['return']
@@ -458,4 +461,4 @@ _c07_prev2 = harnesses
 
 
 def harnesses(tier):   # noqa: F811
-    return _c07_prev2(tier) + [LookupTwice()]
+    return _c07_prev2(tier) + [LookupTwice(tier)]
